@@ -486,6 +486,16 @@ def isNum : Val → Option Nat
   | .num b => some b
   | _ => none
 
+/-- `vm_compop(op)`: two numbers are compared as doubles, anything else through `janet_compare(x, y) op 0`; never fails -/
+def primCmp (c : Cfg) (oper : String) (x y : Val) : Bool :=
+  match isNum x, isNum y with
+  | some a, some b =>
+    let dx := decode a; let dy := decode b
+    (match oper with | "<" => dx.lt dy | "<=" => dx.le dy | ">" => dx.gt dy | ">=" => dx.ge dy | _ => false)
+  | _, _ =>
+    let r := janetCompare c x y
+    (match oper with | "<" => decide (r < 0) | "<=" => decide (r ≤ 0) | ">" => decide (r > 0) | ">=" => decide (r ≥ 0) | _ => false)
+
 /-- one opcode applied to two stack values: `template` and `oper` come from the generated `vmOps` row -/
 def vmOp (c : Cfg) (N : NumOps) (template oper : String) (x y : Val) : Res Val :=
   match template with
@@ -502,16 +512,7 @@ def vmOp (c : Cfg) (N : NumOps) (template oper : String) (x y : Val) : Res Val :
     (match isNum x, isNum y with
      | some a, some b => bitop32 (template == "bitopu") oper a b
      | _, _ => binopCall c oper ("r" ++ oper) x y)
-  | "compop" =>
-    (match isNum x, isNum y with
-     | some a, some b =>
-       let dx := decode a; let dy := decode b
-       .ok (.bool (match oper with
-                   | "<" => dx.lt dy | "<=" => dx.le dy | ">" => dx.gt dy | ">=" => dx.ge dy | _ => false))
-     | _, _ =>
-       let r := janetCompare c x y
-       .ok (.bool (match oper with
-                   | "<" => r < 0 | "<=" => r ≤ 0 | ">" => r > 0 | ">=" => r ≥ 0 | _ => false)))
+  | "compop" => .ok (.bool (primCmp c oper x y))
   | _ => .err .nomethod
 
 /-- JOP_BNOT: `janet_wrap_integer(~janet_unwrap_integer(op))` on numbers — the double -> int32 cast is *unchecked*
